@@ -72,6 +72,26 @@ META["C15"] = dict(cat="model_checking", design="6 C15",
                    note="Observation instrument: counting #[global_allocator] (per thread). " + _TB,
                    tech="TLC trace validation of allocation-count records")
 
+META["C14"] = dict(cat="model_checking", design="6 C14",
+                   text="Finite and complete: every table entry and on-demand power in each configuration is dumped from the real "
+                        "code and compared by TLC with Tables.tla; the specification's own data module is proved against the "
+                        "mathematical definitions by MC_Tables (multiplication only, 2101 data).",
+                   note="Definitions are those of etc/lemire_table.py / bellerophon_table.py restated in TLA+. " + _TB,
+                   tech="TLC: MC_Tables (data vs definitions) + trace validation of the dumped constants")
+META["C17"] = dict(cat="model_checking", design="6 C17",
+                   text="MC_Fields checks decode / encode / b / b+h equations on ALL bit patterns of four small formats; the real "
+                        "helpers are run on every exponent field x both signs x fraction patterns of f32 and f64 and compared by "
+                        "TLC with IEEE!Decode / Encode.",
+                   note="2^32 / 2^64 patterns are not enumerated through TLC. " + _TB,
+                   tech="TLC model checking of the codec on small formats + trace validation of helper records")
+META["C18"] = dict(cat="model_checking", design="6 C18",
+                   text="MC_Round checks the model of rounding::round against constructive rounding and the oracle on structured "
+                        "64-bit significands for two small formats; the real round() is run over the exponent range with "
+                        "significands built per shift (carry / tie / just below / just above) and adjudicated by TLC; the model "
+                        "must reproduce the returned (mant, exp) (drift reported).",
+                   note="Truncating variant judged below 2^(emax+1) only (the callers' domain; above it the code saturates to infinity). " + _TB,
+                   tech="TLC model checking of Rounding.tla + trace validation of round() records against the oracle")
+
 PENDING = "check not built yet in this revision of /verif (planned; see DESIGN.md section 6)"
 
 
